@@ -280,7 +280,8 @@ structure CmdReq where
   err     : String     -- `-` or `=<hex>`
 
 def parseCmd (f : List String) : Option CmdReq :=
-  match f with
+  -- an optional 7th field names how the harness builds the handler's error value; its text is `err` whatever the kind
+  match (if f.length == 7 then f.take 6 else f) with
   | [a, pre, pub, bad, res, err] => do
       if !(["ok", "marshal", "noop", "modify", "topic"].contains pre) then none
       if !(["ok", "fail", "failh", "handled"].contains pub) then none
